@@ -241,6 +241,16 @@ def ingestPre (c : σ) (now : Ms) (recs : List Rec) : IngestAcc σ :=
 def livePairs (c1 : σ) (updates : List (Rec × Bool)) : List (Rec × Option Rec) :=
   updates.map (fun u => (u.1, if u.2 then ops.getUnique c1 u.1 else none))
 
+/-- `[record for record in removes if cache.async_get_unique(record) is not None]` (D24 repair): the withdrawn records that are
+still cached when the first round of callbacks is over — a callback may have registered a listener with a question, whose purge of
+expired records (`async_add_listener`) can already have removed one.  `keep` is the test applied to "is it still cached". -/
+def keptRemovesWith (keep : Bool → Bool) (c : σ) (rs : List Rec) : List Rec :=
+  rs.filter (fun r => keep (ops.getUnique c r).isSome)
+
+/-- the code as it is: the test is the generated leaf `removes_keep_test`; on a tree without the filter it is the constant `true`
+(every withdrawn record is handed to `async_remove_records`) -/
+def keptRemoves (c : σ) (rs : List Rec) : List Rec := keptRemovesWith ops Gen.Cache.removes_keep_test c rs
+
 /-- `RecordManager.async_updates_from_response` (listeners abstracted to the two observation points) -/
 def ingest (c : σ) (now : Ms) (recs : List Rec) : Except PyExc (IngestOut σ) := do
   let a := ingestPre lower ops c now recs
@@ -248,8 +258,19 @@ def ingest (c : σ) (now : Ms) (recs : List Rec) : Except PyExc (IngestOut σ) :
   let call1 := if a.updates.isEmpty then none else some (livePairs ops c1 a.updates, c1)
   let c2 := addAll ops c1 a.addrAdds
   let c3 := addAll ops c2.1 a.otherAdds
-  let c4 ← removeAll ops c3.1 a.removes
+  let c4 ← removeAll ops c3.1 (keptRemoves ops c3.1 a.removes)
   pure { cache := c4, call1 := call1, call2 := if a.updates.isEmpty then none else some c4, notify := c2.2 || c3.2 }
+
+/-- the second half of `async_updates_from_response`, on the cache as the first round of callbacks left it (`c1`): address adds,
+other adds, then the withdrawn records that pass `keep`; returns the cache and `new` -/
+def ingestFinishWith (keep : Bool → Bool) (c1 : σ) (a : IngestAcc σ) : Except PyExc (σ × Bool) := do
+  let c2 := addAll ops c1 a.addrAdds
+  let c3 := addAll ops c2.1 a.otherAdds
+  let c4 ← removeAll ops c3.1 (keptRemovesWith ops keep c3.1 a.removes)
+  pure (c4, c2.2 || c3.2)
+
+/-- the code as it is -/
+def ingestFinish (c1 : σ) (a : IngestAcc σ) : Except PyExc (σ × Bool) := ingestFinishWith ops Gen.Cache.removes_keep_test c1 a
 
 end
 
